@@ -63,6 +63,13 @@ impl Mem {
             Store::Sparse { cells, seq, .. } => {
                 *seq += 1;
                 cells.insert((x, y), (v, *seq));
+                if cells.len() > 6_000_000 {
+                    // the generators keep per-pixel traffic on giant framebuffers small; a driver
+                    // that turns an O(1) fill into billions of single pixels cannot be simulated
+                    std::panic::panic_any(crate::world::SimAbort::Harness(
+                        "more than 6 million individually written cells on a giant framebuffer".into(),
+                    ));
+                }
             }
         }
     }
